@@ -1,8 +1,150 @@
 import Driver.Proto
-/-! driver handlers for property C20 (ops `model.*`, `spec.*`, `trig.*`) -/
-namespace Verif.Driver.C20
-open Verif Verif.Driver
+import Verif.Model.CliFs
+import Verif.Spec.CliSafe
+/-! driver handlers for property C20 (ops `model.c20.*`, `spec.c20.*`, `trig.c20.*`)
 
-def handlers : List (String × Handler) := []
+Common argument layout of the `model.c20.*` ops that take a task:
+
+```
+0 files   groups  path,content;…
+1 dirs    list
+2 srcs    list
+3 dst     bytes
+4 root    bytes
+5 sep     bytes
+6 flags   list of 0/1: sync, skip, presMode, presOwn, presTime, modeAgree, ownAgree
+7 stdin   bytes
+8 wok     bool   (all writes succeed)
+9 chunks  list
+```
+-/
+namespace Verif.Driver.C20
+open Verif Verif.Driver Verif.Model.CliFs
+
+def decodeFiles (gs : List (List Bytes)) : Except String (List (Bytes × Bytes)) :=
+  gs.mapM fun g =>
+    match g with
+    | [p, c] => .ok (p, c)
+    | [p] => .ok (p, [])
+    | _ => .error "bad file group"
+
+def flagAt (fl : List Bytes) (i : Nat) : Bool := fl[i]? == some [49]
+
+structure Req where
+  fs : Fs
+  t : Task
+  cfg : Cfg
+  w : Writes
+
+def decodeReq (args : List String) : Except String Req := do
+  let files ← decodeFiles (← argGroups args 0)
+  let dirs ← argList args 1
+  let srcs ← argList args 2
+  let dst ← argBytes args 3
+  let root ← argBytes args 4
+  let sep ← argBytes args 5
+  let fl ← argList args 6
+  let stdin ← argBytes args 7
+  let wok ← argBool args 8
+  let chunks ← argList args 9
+  .ok {
+    fs := { files := files, dirs := dirs }
+    t := { srcs := srcs, dst := dst, root := root, sep := sep, sync := flagAt fl 0, skip := flagAt fl 1 }
+    cfg := { presMode := flagAt fl 2, presOwn := flagAt fl 3, presTime := flagAt fl 4,
+             modeAgree := flagAt fl 5, ownAgree := flagAt fl 6, stdin := stdin }
+    w := if wok then .ok chunks else .fail chunks }
+
+def sp : Bytes := [32]
+
+/-- human-readable rendering; `write` carries the length only (chunking is free, data is compared through the final tree) -/
+def renderOp : Op → Bytes
+  | .rename a b => strBytes "rename " ++ a ++ sp ++ b
+  | .openRead p => strBytes "openRead " ++ p
+  | .openTrunc p => strBytes "openTrunc " ++ p
+  | .write p c => strBytes "write " ++ p ++ sp ++ natBytes c.length
+  | .close p => strBytes "close " ++ p
+  | .remove p => strBytes "remove " ++ p
+  | .mkdir p => strBytes "mkdir " ++ p
+  | .chmod p => strBytes "chmod " ++ p
+  | .chown p => strBytes "chown " ++ p
+  | .chtimes p => strBytes "chtimes " ++ p
+
+def renderFiles (l : List (Bytes × Bytes)) : Bytes :=
+  listReply (l.foldr (fun (p, c) acc => p :: c :: acc) [])
+
+/-- `model.c20.ops <req>` → rendered op list of `minifyOps` -/
+def opsH : Handler := fun args => do
+  let r ← decodeReq args
+  .ok (listReply ((minifyOps r.cfg r.w r.t r.fs).map renderOp))
+
+/-- `model.c20.run <req> k` → files after the first `k` ops (`k < 0`: all) -/
+def runH : Handler := fun args => do
+  let r ← decodeReq args
+  let k ← argInt args 10
+  let ops := minifyOps r.cfg r.w r.t r.fs
+  let ops := if k < 0 then ops else ops.take k.toNat
+  .ok (renderFiles (run ops r.fs).files)
+
+/-- `model.c20.plan <req> libOk libOut` → `[inputBytes, outBytes, minifyOk]` where the library answers
+    `libOut` (`libOk`=1) or fails (`libOk`=0) -/
+def planH : Handler := fun args => do
+  let r ← decodeReq args
+  let libOk ← argBool args 10
+  let libOut ← argBytes args 11
+  let lib : Bytes → Option Bytes := fun _ => if libOk then some libOut else none
+  .ok (listReply [inputBytes r.cfg r.t r.fs, outBytes r.cfg lib r.t r.fs,
+    boolBytes (minifyOk r.cfg lib r.w r.t r.fs)])
+
+/-- `model.c20.enabled <req>` → `ok` or the index of the first op of `minifyOps` whose precondition fails -/
+def enabledH : Handler := fun args => do
+  let r ← decodeReq args
+  match firstDisabled r.fs (minifyOps r.cfg r.w r.t r.fs) with
+  | none => .ok (strBytes "ok")
+  | some i => .ok (natBytes i)
+
+def decodeOp (g : List Bytes) : Except String Op :=
+  match g with
+  | [k, a, b] =>
+    if k == strBytes "rename" then .ok (.rename a b)
+    else if k == strBytes "write" then .ok (.write a b)
+    else .error "bad op"
+  | [k, a] =>
+    if k == strBytes "openRead" then .ok (.openRead a)
+    else if k == strBytes "openTrunc" then .ok (.openTrunc a)
+    else if k == strBytes "close" then .ok (.close a)
+    else if k == strBytes "remove" then .ok (.remove a)
+    else if k == strBytes "mkdir" then .ok (.mkdir a)
+    else if k == strBytes "chmod" then .ok (.chmod a)
+    else if k == strBytes "chown" then .ok (.chown a)
+    else if k == strBytes "chtimes" then .ok (.chtimes a)
+    else if k == strBytes "write" then .ok (.write a [])
+    else .error "bad op"
+  | _ => .error "bad op group"
+
+/-- `model.c20.exec files ops` → files after executing the given ops (contract check of `step`
+    against the real kernel: the ops are the system calls a killed run actually completed) -/
+def execH : Handler := fun args => do
+  let files ← decodeFiles (← argGroups args 0)
+  let ops ← (← argGroups args 1).mapM decodeOp
+  .ok (renderFiles (run ops { files := files }).files)
+
+/-- `spec.c20.safeinv orig cur final inputs dsts` → 0/1 -/
+def safeH : Handler := fun args => do
+  let orig ← decodeFiles (← argGroups args 0)
+  let cur ← decodeFiles (← argGroups args 1)
+  let fin ← decodeFiles (← argGroups args 2)
+  let inputs ← argList args 3
+  let dsts ← argList args 4
+  .ok (boolBytes (Verif.Spec.CliSafe.safeInvB orig cur fin inputs dsts))
+
+/-- `trig.c20.bakinput srcs dst` → 0/1 (guard of K-C20-1) -/
+def trigH : Handler := fun args => do
+  let srcs ← argList args 0
+  let dst ← argBytes args 1
+  .ok (boolBytes (srcs.contains (bak dst)))
+
+def handlers : List (String × Handler) :=
+  [("model.c20.ops", opsH), ("model.c20.run", runH), ("model.c20.plan", planH),
+   ("model.c20.exec", execH), ("model.c20.enabled", enabledH), ("spec.c20.safeinv", safeH), ("trig.c20.bakinput", trigH)]
 
 end Verif.Driver.C20
